@@ -154,10 +154,10 @@ func evalC07(c *Ctx, cs *Case) {
 		walk(root, true)
 	}
 	extChoices := []int{0, 1, 7, 8}
-	targetForms := []int{0, 1, 2} // explicit abs, default via chdir, relative ./target/../target
+	targetForms := []int{0, 1, 2, 3} // explicit abs, default via chdir, relative ./target/../target, a target that does not exist yet
 	if cs.Kind != "one-hostile" || c.Quick() {
 		extChoices = []int{extChoices[r.Intn(3)]}
-		targetForms = []int{r.Intn(3)}
+		targetForms = []int{r.Intn(4)}
 	}
 	for _, rtIdx := range []int{0, 1, 2, 3} {
 		rt := mkdirRoutes[rtIdx]
@@ -218,6 +218,8 @@ func c07One(c *Ctx, cs *Case, f model.Forest, doc, fkey string, rt fsRoute, dry,
 		target = ""
 	case 2:
 		target = "./target/../target"
+	case 3:
+		target = filepath.Join(j.Target, "not", "there-yet") // a rejected tree must not even leave the target behind
 	}
 	opts := fsOpts(target, ExtLists[ei], ei != 0, dry, massive, false)
 	// a stray output-encoding option (meaningless for mkdir) must not open a way out of the target
